@@ -10,6 +10,7 @@ import CosetProofs.Ties.Compare.Header
 import CosetProofs.Ties.Compare.Key
 import CosetProofs.Ties.Compare.Mac
 import CosetProofs.Ties.Compare.Sign
+import CosetProofs.Ties.IanaTables
 namespace Coset.Props.C11
 
 /-! ### ties to the source text (regenerated on every run, compared in the kernel with the transcribed tree) -/
@@ -39,5 +40,10 @@ theorem tie_compare_sign : Coset.Ties.compareCovered "sign" Coset.Gen.decisionBu
 #print axioms tie_compare_key
 #print axioms tie_compare_mac
 #print axioms tie_compare_sign
+
+/-- the registry tables the streams of this property build values from (by name) are the IANA assignments. -/
+theorem tie_iana_tables : Coset.Ties.IanaTablesOk := Coset.Ties.iana_tables
+
+#print axioms tie_iana_tables
 
 end Coset.Props.C11
